@@ -1,6 +1,6 @@
-from . import evaluate
+from . import evaluate, numeric
 
-MODULES = [evaluate]
+MODULES = [evaluate, numeric]
 
 
 def all_specs(prog, tier):
